@@ -27,6 +27,7 @@ var mon = fsx.Monitors{Leak: true}
 
 func run(c *fw.Ctx) {
 	fsx.Explore(c, mon)
+	fsx.Containment(c, mon)
 	fsx.Histories(c, mon, c.Pick(64, 2000), c.Pick(80, 200))
 	hostileNames(c)
 	permissionSlice(c)
